@@ -19,6 +19,7 @@ LEVEL_NOTE = 'trusted: PyNaCl Ed25519 primitives (the library wraps the same); t
 TECHNIQUE = 'small-scope exhaustive enumeration of validator sets and signature sequences against a reference acceptance predicate'
 ASSUMPTIONS = ['keys derived from VERIF_SEED; Ed25519 itself is trusted']
 NOT_ASSERTED = []
+RULE += ' Sixth session: validator_addr descriptors with distinct ADNL addresses - all sequences of <= 3 signature entries over {member named by key hash, member named by its ADNL address} (an ADNL address names no signer).'
 
 
 def BOUNDS(tier):
